@@ -96,7 +96,9 @@ async fn startup_udp<const N: usize>(config: &ServerConfig<SslConfig>, user_mana
         let inbound = UdpSocket::bind(format!("{}:{}", config.host, config.port)).await?;
         let (tx, mut rx) = mpsc::channel::<(BytesMut, Address, SocketAddr, Session<N>)>(1024);
         let ttl = Duration::from_secs(300);
-        let mut net_map: LruCache<u64, UdpAssociate<N>> = LruCache::with_expiry_duration_and_capacity(ttl, 10240);
+        // a 2022 session is named by its client session id; the original AEAD ciphers carry no session id on the wire: there a client is its address
+        let by_address = !config.cipher.is_aead_2022();
+        let mut net_map: LruCache<(u64, Option<SocketAddr>), UdpAssociate<N>> = LruCache::with_expiry_duration_and_capacity(ttl, 10240);
         let mut cleanup_timer = time::interval(ttl);
         info!("Udp server running => {}|{}|{}:{}", config.protocol, config.cipher, config.host, config.port);
         let mut buf = [0; 0x10000];
@@ -108,7 +110,7 @@ async fn startup_udp<const N: usize>(config: &ServerConfig<SslConfig>, user_mana
                 // p_s_c
                 peer_msg = rx.recv() => {
                     if let Some((content, peer_addr, client_addr, session)) = peer_msg {
-                        net_map.get(&session.client_session_id); // keep alive
+                        net_map.get(&(session.client_session_id, by_address.then_some(client_addr))); // keep alive
                         let mut dst = BytesMut::new();
                         if let Err(e) = SessionCodec::encode(&codec, (content, peer_addr, session), &mut dst) {
                             error!("[udp] encode failed; error={e}")
@@ -127,7 +129,7 @@ async fn startup_udp<const N: usize>(config: &ServerConfig<SslConfig>, user_mana
                             let mut src = BytesMut::from(&buf[..len]);
                             match SessionCodec::<N>::decode(&codec, &mut src) {
                                 Ok(Some((content, peer_addr, session))) => {
-                                    let key = session.client_session_id;
+                                    let key = (session.client_session_id, by_address.then_some(client_addr));
                                     // an association whose task has ended (unresolvable or unreachable target) is replaced, never fatal for the service
                                     if net_map.get(&key).is_some_and(|assoc| assoc.task.is_finished()) {
                                         net_map.remove(&key);
